@@ -495,6 +495,27 @@ class Builder:
             r = 2; c = n // 2
             tom = lambda l: [l[j * r + i] for i in range(r) for j in range(c)]
             op["src_wells"] = ("M", r, c, tom(srcs)); op["dst_wells"] = ("M", r, c, tom(dsts)); op["vols"] = ("M", r, c, tom(vols))
+        elif fail is None and n >= 2 and rng.random() < 0.3:
+            # every argument is flattened column-major on its own: rows (1, n), columns (n, 1) and r x c blocks of
+            # *different* shapes spell the same request (a row against a column must not become an outer product)
+            def reshape(a):
+                if a[0] != "V" or len(a[1]) != n:
+                    return a
+                l = list(a[1])
+                facts = [(r, n // r) for r in range(1, n + 1) if n % r == 0]
+                r, c = rng.choice(facts + [(1, n), (n, 1)])
+                return ("M", r, c, [l[j * r + i] for i in range(r) for j in range(c)])
+            for key in ("src_wells", "dst_wells", "vols"):
+                if rng.random() < 0.6:
+                    op[key] = reshape(op[key])
+        if fail == "length" and n >= 4 and rng.random() < 0.5:
+            # lengths that differ although the shapes are broadcastable: an r x c block of wells with r (or c) volumes
+            facts = [(r, n // r) for r in range(2, n) if n % r == 0]
+            if facts:
+                r, c = rng.choice(facts)
+                tom = lambda l: [l[j * r + i] for i in range(r) for j in range(c)]
+                op["src_wells"] = ("M", r, c, tom(srcs)); op["dst_wells"] = ("M", r, c, tom(dsts))
+                op["vols"] = rng.choice([("V", vols[:r]), ("M", r, 1, vols[:r]), ("M", 1, c, vols[:c]), ("V", vols[:c])])
         return op
 
     def ops_drain_refill(self):
@@ -564,9 +585,20 @@ class Builder:
                 break
         if not dws:
             return None
+        if rng.random() < self.profile.get("p_dist_alias", 0.0):
+            # several destination wells that are one real well (virtual rows of a trough column; a plate well listed
+            # twice): outside C01's "pairwise distinct positions", inside the scope of C02/C03/C11/C16
+            w0 = rng.choice(dws)
+            idx0 = D.indices[w0]
+            same = [w for w in flat if D.indices[w] == idx0 and w not in dws]
+            extra = rng.sample(same, min(len(same), rng.randint(1, 3))) if same else [w0]
+            dws = dws + extra
+            rng.shuffle(dws)
         n = len(dws)
         avail = self.snap(F(float(S.volumes[0, col])) - F(S.min_volume))
-        room = self.snap(min(F(D.max_volume) - F(float(D.volumes[D.indices[w]])) for w in dws))
+        from collections import Counter as _C
+        mult = _C(D.indices[w] for w in dws)
+        room = self.snap(min((F(D.max_volume) - F(float(D.volumes[D.indices[w]]))) / mult[D.indices[w]] for w in dws))
         M = self.cfg["max_volume"]
         import math as _m
         g8 = lambda x: F(_m.floor(x * 8), 8)
